@@ -26,7 +26,7 @@ CHECKS = {
          "Static discipline check of the bridges: channels are closed exactly once (single teardown-only site or sync.Once), never sent to outside a recovering slot, terminal notifications are queued before the close; ToSlice/ToMap emit once at completion the container their next slot fills; FromChannel completes on close and stops on teardown; the notification constructors, the materializing writers and the dispatching readers agree kind by kind (so Materialize∘Dematerialize preserves kinds). Contents of containers and consumer behaviour are not decided.",
          "Trusted: channel semantics; C03 (teardown once); C07 (slots recover).",
          "DESIGN.md section 4, C17"),
- "C06": ("static CFG ordering and who-may-lock analysis of subscriber.go / subscription.go / observable.go: compare-and-swap dominates the finalizer run (UNSUB-FLIPS-FIRST), query methods never acquire the producer lock (call-graph over same-type methods), terminal-before-close, Wait's signalling channel discipline (WAIT-SIGNAL), Collect's wait-before-return and returned variables (COLLECT-WAITS)",
+ "C06": ("static CFG ordering and who-may-lock analysis of subscriber.go / subscription.go / observable.go: compare-and-swap dominates the finalizer run (UNSUB-FLIPS-FIRST), query methods never acquire the producer lock (call-graph over same-type methods), terminal-before-close, Wait's signalling channel discipline (WAIT-SIGNAL), no other Wait shortcut (WAIT-IMPLEMENTORS), no subject notifies under a lock its subscriber teardown takes (CALLBACK-REENTRANCY), Collect's wait-before-return and returned variables (COLLECT-WAITS)",
          "Static check of the structural premises behind 'Unsubscribe cuts delivery' and 'Wait/Collect tell the truth': the status is closed before finalizers run (so, with the Next gate, a notification started afterwards is refused), query methods and Unsubscribe are callable from inside callbacks, terminals are delivered before the subscriber closes, Wait blocks only on a buffered channel signalled solely by a teardown it registers, Collect waits before every return and returns what its observer gathered, Unsubscribe is idempotent. Decided exhaustively for the three core files; the real-time claim is the argued consequence.",
          "Trusted: sync/atomic, sync.Mutex, channel semantics.",
          "DESIGN.md section 4, C06"),
@@ -34,7 +34,7 @@ CHECKS = {
          "Narrow claim. Linearizability over concurrent histories is NOT decided (no static argument in reach). Decided: the locking and ordering discipline on which the sequential definitions and the linearization argument rest, for all five subjects, plus agreement between the four broadcasting siblings. One test-pinned violation (unicast delivers the stored terminal before its backlog to a late subscriber) is a known finding.",
          "Trusted: sync.Mutex and sync.Map semantics.",
          "DESIGN.md section 4, C10"),
- "C11": ("static structural clauses: lock-set analysis of Share's per-application state with inferred 'requires lock' closures (SHARE-GUARDED), control dependence of the upstream subscribe site on the created-flag / no-live-connection guard (SINGLE-CONNECT), once-per-path reference-count pairing (REFCOUNT-PAIRING), guarded fields of the connectable observable (CONNECTABLE-GUARDED), configuration plumbing of ShareReplay",
+ "C11": ("static structural clauses: lock-set analysis of Share's per-application state with inferred 'requires lock' closures (SHARE-GUARDED), control dependence of the upstream subscribe site on the created-flag / no-live-connection guard (SINGLE-CONNECT), once-per-path reference-count pairing (REFCOUNT-PAIRING), reset decision before the terminal broadcast (RESET-BEFORE-TERMINAL), guarded fields of the connectable observable (CONNECTABLE-GUARDED), configuration plumbing of ShareReplay",
          "Narrow claim. Event histories (subscribe/unsubscribe/notification/connect sequences) are NOT decided. Decided: the discipline that makes 'at most one live upstream subscription' true — connection state only touched under the mutex, upstream subscribed only where a new connection was installed / no live connection exists, reference count changed exactly once per (un)subscription under the lock with the zero test after the decrement.",
          "Trusted: sync.Mutex; subjects honour C10.",
          "DESIGN.md section 4, C11"),
@@ -42,12 +42,12 @@ CHECKS = {
          "Static discipline check: reports every location of the state the property names that is not consistently protected (atomic, concurrency-safe type, one common mutex, or ordered by S1-S4) — for 9 types (~220 field accesses) and the closure variables of all safe operators. It found the connectable-observable race (fixed; confirmed by the race detector). It does not prove absence of all races in the Go memory model and executes nothing.",
          "Trusted: sync, sync/atomic, channels, xsync/xatomic wrappers; values reached through pointers handed to helpers are checked inside the helper.",
          "DESIGN.md section 4, C13"),
- "C01": ("static analysis of the contract-enforcing types: CFG dominance of every delivery by the status gate (GATE), enumeration of all status writes (STATUS-MONOTONE), use-discipline of the destination parameter in every Observable implementation (WRAP), subject gates (SUBJECT-GATE), refusal branches (DROP-HOOK), lock region (LOCK-REGION)",
+ "C01": ("static analysis of the contract-enforcing types: CFG dominance of every delivery by the status gate, evaluated with the producer lock held (GATE), enumeration of all status writes (STATUS-MONOTONE), use-discipline of the destination parameter in every Observable implementation (WRAP), subject gates (SUBJECT-GATE), refusal branches (DROP-HOOK), lock region (LOCK-REGION)",
          "Static check of the structural premises from which the notification grammar follows for every pipeline and schedule: each delivery in subscriberImpl/observerImpl/subjects is dominated by the open-status test or a won compare-and-swap, the status only moves away from open, every Observable implementation wraps its destination, refused notifications reach the hook. These premises are decided exhaustively on every run; the short interleaving argument that turns them into the property is written in DESIGN.md and is not machine-checked. One test-asserted violation (observer stays open after a panicking Next) is a known finding.",
          "Trusted: sync/atomic and sync.Mutex; users' own Observer implementations are out of scope.",
          "DESIGN.md section 4, C01"),
- "C05": ("static structural clauses only: ERR-PROPAGATION (error slot of every upstream subscribe site reaches an Error notification to the destination, from the subscribe-closure model) and ARITY (K+1 sites / K+1-tuples / counter constants of the CombineLatestWithK and ZipWithK families)",
-         "Narrow claim. The property quantifies over arrival orders (run-time histories), which static analysis cannot decide; what is decided is one of its clauses that is visible in the code's shape — 'an error from any source ends the output': every subscribe site's error slot forwards to the destination unless the operator consumes errors by definition — plus arity agreement of the fixed-arity families. Ordering, completion timing, loss/duplication are NOT decided.",
+ "C05": ("static structural clauses only: ERR-PROPAGATION (error slot of every upstream subscribe site reaches an Error notification to the destination, from the subscribe-closure model), NO-PREMATURE-RELEASE (siblings are unsubscribed inside a slot only on paths that terminate the output; resource graph + CFG path test), ARITY (K+1 sites / K+1-tuples / counter constants / flag-queue pairing of the CombineLatestWithK and ZipWithK families), RACE-LATE-LOSER, COMPOSITION (Merge*->MergeAll, Concat*/FlatMap*->ConcatAll), SEQUENTIAL-INNER-GUARD",
+         "Narrow claim. The property quantifies over arrival orders (run-time histories), which static analysis cannot decide; what is decided is one of its clauses that is visible in the code's shape — 'an error from any source ends the output': every subscribe site's error slot forwards to the destination unless the operator consumes errors by definition — that siblings are not released while the output goes on, that a sequential flattener does not subscribe the next inner after the end, that Race re-tests its winner after each subscribe, which flattening operator the composed operators delegate to — plus arity agreement of the fixed-arity families. Ordering, completion timing, loss/duplication in general are NOT decided. Found and fixed Zip's premature release and ConcatAll's subscribe-after-error.",
          "Trusted: C01 (first terminal closes the destination) and C03 (teardown releases the other sources). Two test-asserted violations (TakeUntil/SkipUntil swallow the notifier's error) are known findings.",
          "DESIGN.md section 4, C05"),
  "C08": ("static who-may-use analysis of asynchrony constructs (goroutines, timer callbacks, channel sends) against the emission contexts of the subscribe-closure model (SYNC-EMISSION); structural checks of the hand-off queues (BOUNDED-QUEUE) and of the blocking producer lock (LOCK-REGION)",
